@@ -13,6 +13,21 @@ _DEFAULT_WCS_ORIGIN = 0
 _DEFAULT_WCS_MODE = 'all'
 
 
+def _latitude_axis_first(wcs):
+    """
+    Whether the latitude axis of a celestial WCS comes before its
+    longitude axis (e.g., ``CTYPE = ('DEC--TAN', 'RA---TAN')``).
+
+    `~astropy.coordinates.SkyCoord.from_pixel` and
+    `~astropy.coordinates.SkyCoord.to_pixel` re-order the celestial axes
+    to (longitude, latitude), pixel axes included, so for such a WCS
+    they take and return the two pixel coordinates in the opposite order
+    to the image axes (and to ``wcs.pixel_to_world``, which the region
+    conversions use).
+    """
+    return wcs.wcs.lng > wcs.wcs.lat >= 0
+
+
 class PixCoord:
     """
     A class for pixel coordinates.
@@ -161,7 +176,10 @@ class PixCoord:
             A new object with sky coordinates corresponding to the pixel
             coordinates.
         """
-        return SkyCoord.from_pixel(xp=self.x, yp=self.y, wcs=wcs,
+        xp, yp = self.x, self.y
+        if _latitude_axis_first(wcs):
+            xp, yp = yp, xp
+        return SkyCoord.from_pixel(xp=xp, yp=yp, wcs=wcs,
                                    origin=origin, mode=mode)
 
     @classmethod
@@ -190,6 +208,8 @@ class PixCoord:
             coordinates.
         """
         x, y = skycoord.to_pixel(wcs=wcs, origin=origin, mode=mode)
+        if _latitude_axis_first(wcs):
+            x, y = y, x
         return cls(x=x, y=y)
 
     def separation(self, other):
